@@ -35,14 +35,23 @@ def c17_r1(ctx):
         if f.module.name.startswith(("whoosh.lang", "whoosh.support", "whoosh.analysis")):
             continue
         for c in norm.calls_in(f.node, include_nested_defs=True):
+            # the value bound to the callee's `mode`, by keyword or (resolved callee) by position
+            mv = None
             for k in c.keywords:
-                if k.arg == "mode" and isinstance(k.value, ast.Constant) and k.value.value in ("index", "query"):
-                    seen.setdefault(f.short, set()).add(k.value.value)
-                    ctx.saw(f)
-                    want = MODE_SITES.get(f.short)
-                    ctx.ob(f, want is not None and k.value.value in want, "mode=%r at a reviewed site" % k.value.value,
-                           detail="expected %s" % (sorted(want) if want else "no literal mode here (site not in the reviewed table)"),
-                           loc=ctx.nodeloc(f, c))
+                if k.arg == "mode":
+                    mv = k.value
+            if mv is None and c.args:
+                try:
+                    mv = bound_arg(prog, f, c, "mode")
+                except Exception:
+                    mv = None
+            if isinstance(mv, ast.Constant) and mv.value in ("index", "query"):
+                seen.setdefault(f.short, set()).add(mv.value)
+                ctx.saw(f)
+                want = MODE_SITES.get(f.short)
+                ctx.ob(f, want is not None and mv.value in want, "mode=%r at a reviewed site" % mv.value,
+                       detail="expected %s" % (sorted(want) if want else "no literal mode here (site not in the reviewed table)"),
+                       loc=ctx.nodeloc(f, c))
         # kwargs["mode"] = "index"
         for st in ast.walk(f.node):
             if isinstance(st, ast.Assign) and isinstance(st.targets[0], ast.Subscript) and \
